@@ -1595,6 +1595,10 @@ func (g *vGen) cfgLine() string {
 				min, max = 3, 3+r.Intn(2)
 			}
 			uc, ums = 0, 0
+			if r.Intn(2) == 0 {
+				uc, ums = 1, 1 // … and the stand-in is refreshed while the key is unbound
+			}
+			g.ums = ums
 			g.scenarioFallbackRebind()
 		} else {
 			g.scenarioFallbackRefresh()
@@ -2220,10 +2224,38 @@ func (g *vGen) scenarioFallbackRebind() {
 		}
 		return ""
 	})
-	add(pick("bound", "k1/", &q1)) // served by a stand-in
+	refreshStandIn := g.ums > 0
+	if refreshStandIn {
+		// served by a stand-in, with a deadline that will have passed when the call ends
+		add(func() string {
+			if cur() < 0 {
+				return ""
+			}
+			q1 = call()
+			return fmt.Sprintf("pool pick call=%d picker=%d m=bound ctx=gcp dl=%d req=k1/", q1, cur(), atomic.LoadInt64(&verifClock))
+		})
+	} else {
+		add(pick("bound", "k1/", &q1)) // served by a stand-in
+	}
 	add(pick("unbind", "k1/", &u1))
 	add(done(&u1, "/"))
-	if r.Intn(2) == 0 {
+	if refreshStandIn {
+		// the key is unbound; its stand-in (the entry for the key is still in the fallback table) becomes unresponsive
+		// and is refreshed; the replacement takes over
+		add(func() string { return fmt.Sprintf("pool adv ns=%d", int64(g.ums)*1000000+1) })
+		add(func() string {
+			if _, ok := h.calls[q1]; !ok {
+				return ""
+			}
+			return fmt.Sprintf("pool done call=%d err=declient reply=/", q1)
+		})
+		add(func() string {
+			for sc := range h.gb.refreshingScRefs {
+				return fmt.Sprintf("pool scs sc=%d st=READY", sc.(*vSubConn).id)
+			}
+			return ""
+		})
+	} else if r.Intn(2) == 0 {
 		add(done(&q1, "/"))
 	}
 	// keep the old stand-in busier than some other READY channel so that the next BIND lands elsewhere
@@ -2231,6 +2263,16 @@ func (g *vGen) scenarioFallbackRebind() {
 	add(pick("bind", "/", &b2))
 	add(done(&b2, "k1/"))
 	add(pick("bound", "k1/", &q2))
+	if refreshStandIn {
+		// the key's new home fails: it needs a stand-in again
+		add(func() string {
+			if sc, ok := h.gb.affinityMap["k1"]; ok {
+				return fmt.Sprintf("pool scs sc=%s st=TF", scID(sc))
+			}
+			return ""
+		})
+		add(pick("bound", "k1/", &q2))
+	}
 	if r.Intn(2) == 0 {
 		add(func() string { return "pool scs sc=0 st=READY" })
 		add(pick("bound", "k1/", &q2))
